@@ -361,30 +361,44 @@ theorem swap_is_adjacent_swizzle (dflt : ν) (r : Nat) (f : Tree (List α) ν (r
   match e.1, x.1, h1, h2 with
   | [a], [b], _, _ => rfl
 
-/-- **Swap at every depth** (Tensor.swapRanks(depth=k)) — partial: stated for trees in which no
-    fiber at depth `k` is empty (with an empty one next to a non-empty one the implementation
-    raises `AssertionError` — open finding).  Then for every `k` and every payload depth `r`, on
-    every well-formed tree with integer coordinates on ranks `k`, `k+1`: the transform succeeds,
-    the result is well-formed and its content is the original's with coordinates `k` and `k+1` of
-    every point exchanged, in ascending order. -/
-theorem swapT_content_partial (dflt : ν) (r k : Nat) (t : Tree (List α) ν (r + 2 + k)) (hw : WF (r + 2 + k) t)
-    (hsome : allEmptyAt dflt (r + 1) k t = false)
-    (hsub : (subsAt (r + 2) k t).all (fun s => int2B r s && !isEmpty dflt (r + 2) s) = true) :
+/-- **Swap at every depth** (Tensor.swapRanks(depth=k)).  For every `k` and every payload depth
+    `r`, on every well-formed tensor whose non-empty fibers at depth `k` hold integer coordinates
+    on ranks `k`, `k+1` — empty fibers at depth `k` and all-empty tensors included —: the
+    transform succeeds, the result is well-formed and its content is the original's with
+    coordinates `k` and `k+1` of every point exchanged, in ascending order. -/
+theorem swapT_content (dflt : ν) (r k : Nat) (t : Tree (List α) ν (r + 2 + k)) (hw : WF (r + 2 + k) t)
+    (hsub : (subsAt (r + 2) k t).all (fun s => isEmpty dflt (r + 2) s || int2B r s) = true) :
     ∃ t', swapT (fun a b => a ++ b) List.reverse (fun c => c.take 1) (fun c => c.drop 1) dflt r k t = some t' ∧
       WF (r + 2 + k) t' ∧
       content dflt (r + 2 + k) t' = isort (κ := List (List α))
         ((content dflt (r + 2 + k) t).map (fun pv => (liftN (permPoint [1, 0]) k pv.1, pv.2))) := by
   unfold swapT
-  rw [hsome]
-  simp only [Bool.false_eq_true, if_false]
-  apply transform_at_depth_sorted dflt dflt (r + 2) (r + 2) _ (permPoint [1, 0]) k t hw
-  intro s hs hws
-  have hs' := List.all_eq_true.1 hsub s hs
-  rw [Bool.and_eq_true] at hs'
-  obtain ⟨g, hg, hgw, hgc⟩ := swap_is_adjacent_swizzle dflt r s hws hs'.1 (by simpa using hs'.2)
-  refine ⟨g, hg, hgw, ?_⟩
-  rw [hgc]
-  exact isort_perm _
+  cases hg : allEmptyAt dflt (r + 1) k t with
+  | true =>
+    simp only [if_true]
+    have hc : content dflt (r + 2 + k) t = [] := by
+      rw [allEmptyAt_eq_isEmpty] at hg
+      exact (isEmpty_iff_content dflt _ t).1 hg
+    exact ⟨t, rfl, hw, by rw [hc]; rfl⟩
+  | false =>
+    simp only [Bool.false_eq_true, if_false]
+    apply transform_at_depth_sorted dflt dflt (r + 2) (r + 2) _ (permPoint [1, 0]) k t hw
+    intro s hs hws
+    have hs' := List.all_eq_true.1 hsub s hs
+    cases he : isEmpty dflt (r + 2) s with
+    | true =>
+      refine ⟨show Tree (List α) ν (r + 2) from ([] : List (List α × Tree (List α) ν (r + 1))), ?_,
+        ⟨List.Pairwise.nil, fun _ h => by cases h⟩, ?_⟩
+      · simp only [if_true]
+      · rw [(isEmpty_iff_content dflt _ s).1 he]
+        exact List.Perm.refl _
+    | false =>
+      rw [he, Bool.false_or] at hs'
+      obtain ⟨g, hg', hgw, hgc⟩ := swap_is_adjacent_swizzle dflt r s hws hs' he
+      refine ⟨g, ?_, hgw, ?_⟩
+      · simp only [Bool.false_eq_true, if_false]; exact hg'
+      · rw [hgc]
+        exact isort_perm _
 
 /-- **Unflatten at every depth** (Tensor.unflattenRanks(depth=k, levels=l+1)) — partial only in
     that the tensor must have a declared shape or hold at least one coordinate at rank `k`
@@ -655,10 +669,16 @@ def tD : TC 3 := show List (Coord × TC 2) from
 example : ∃ t', swapT (fun a b => a ++ b) List.reverse (fun c => c.take 1) (fun c => c.drop 1) (0 : Int) 0 1 tD = some t' ∧
       WF 3 t' ∧ content (0 : Int) 3 t' = isort (κ := List Coord)
         ((content (0 : Int) 3 tD).map (fun pv => (liftN (permPoint [1, 0]) 1 pv.1, pv.2))) :=
-  swapT_content_partial (0 : Int) 0 1 tD ((wfB_iff 3 tD).1 (by decide)) (by decide) (by decide)
+  swapT_content (0 : Int) 0 1 tD ((wfB_iff 3 tD).1 (by decide)) (by decide)
 example : isort (κ := List Coord)
       ((content (0 : Int) 3 tD).map (fun pv => (liftN (permPoint [1, 0]) 1 pv.1, pv.2))) =
     [([[0], [0], [0]], 1), ([[0], [0], [1]], 3), ([[0], [2], [0]], 2), ([[1], [1], [5]], 4)] := by decide
+
+-- … and on `tC`, whose B fiber at A=2 is empty (an empty fiber stays in its place)
+example : ∃ t', swapT (fun a b => a ++ b) List.reverse (fun c => c.take 1) (fun c => c.drop 1) (0 : Int) 0 1 tC = some t' ∧
+      WF 3 t' ∧ content (0 : Int) 3 t' = isort (κ := List Coord)
+        ((content (0 : Int) 3 tC).map (fun pv => (liftN (permPoint [1, 0]) 1 pv.1, pv.2))) :=
+  swapT_content (0 : Int) 0 1 tC tC_wf (by decide)
 
 -- unflatten rank 1 (2-tuples) below rank 0, no declared shape; the fiber at A=2 has no element
 def tU : TC 2 := show List (Coord × TC 1) from
